@@ -16,7 +16,9 @@ TEXT = ("Order-taint analysis over the whole crate. D1: every iteration whose or
         "state through an unknown callee) is a violation naming source and sink. D2: bodies reachable from rayon "
         "closures perform no positional accumulation into shared state and never ask for the thread index / pool size. "
         "D3: the data cache is content-addressed: at every DataStorage::write_object(rev, obj) the revision's digest "
-        "derives from digest_object of that same obj, and cache keys are digests (array cache: C16/E3). Does not decide "
+        "derives from digest_object of that same obj, cache keys are digests (array cache: C16/E3), and no call that "
+        "writes replica state or storage is guarded by a query of an LRU cache (a hit is not evidence that the value is "
+        "staged or stored). Does not decide "
         "equality of outcomes across runs as such - only the absence of order / capacity dependence.")
 TRUSTED = ["rustc nightly MIR", "BTreeMap/BTreeSet iterate in key order", "C05/W3: Revision's order is total", "C10/H1: every copy of an object is hash-verified"]
 
@@ -330,6 +332,50 @@ def run(facts, res):
         res.instance("D3", "%s: the configured cache capacity only flows into the LRU constructor (other uses: %s)" % (ctor, uses), b.loc())
         if uses:
             res.violation("D3", "%s|capacity-used-elsewhere" % ctor, "%s: the cache capacity setting influences %s" % (ctor, uses), b.loc())
+
+
+    # D3b: no query of a capacity-bounded cache decides whether replica state or storage is written. A cached entry
+    # proves only that the value was seen at some time, not that it is (still) staged or stored: unstage and reload
+    # do not evict, and whether an entry survives depends on the configured capacity
+    from ..effects import effects_of, REPLICA_STATE
+    from ..common import ADAPTER_TRAIT
+    eff = effects_of(facts)
+    n3b = 0
+    for b in facts.repo_bodies():
+        for s_ in cg.sites[b.path]:
+            se = eff.site_effects(s_) & REPLICA_STATE
+            stores = s_.callee is not None and s_.callee.trait == ADAPTER_TRAIT and s_.callee.name == "write_object"
+            if not se and not stores and not any(_reaches_adapter_write(cg, t_) for t_ in s_.targets + s_.closures):
+                continue
+            n3b += 1
+            for l in lits_of(b, s_.block, facts):
+                q = [callee_name(x) for x in walk(l.term) if x[0] == "call" and x[4] is not None and "lru::LruCache" in (x[4].path or "") and
+                     callee_name(x) not in ("new", "put", "push", "unbounded", "resize")]
+                if q:
+                    res.violation("D3", "%s|state-change-guarded-by-cache-query" % b.path,
+                                  "%s: the call %s (writes %s) runs only under a condition on the content of an LRU cache (%s): the outcome depends on the cache "
+                                  "capacity and on what earlier, possibly discarded, operations left in the cache" % (
+                                      b.path, s_.name(), sorted(f_ for _, f_ in se) or "storage", sorted(set(q))), s_.loc())
+    res.instance("D3", "%d state-changing / storing call sites inspected: none is guarded by a query of an LRU cache" % n3b, None)
+    res.floor("D3", "state-changing call sites inspected for cache guards", n3b, 10)
+
+
+_RAW = {}
+
+
+def _reaches_adapter_write(cg, body):
+    from ..common import ADAPTER_TRAIT
+    k = (id(cg), body.path)
+    if k not in _RAW:
+        hit = False
+        for mb in cg.reach(body).values():
+            if not mb.in_repo():
+                continue
+            for _, t in mb.calls():
+                if t.callee is not None and t.callee.trait == ADAPTER_TRAIT and t.callee.name == "write_object":
+                    hit = True
+        _RAW[k] = hit
+    return _RAW[k]
 
 
 def _leads_to_ok_return(body, block):
